@@ -125,7 +125,7 @@ def traces(m, n, ks, keepall, kci, slash, **kw):
         params['slash'] = True
     exp = _expected_traces(m, n, ip, lp, kinds, cl, ks, keepall, kci, slash)
     if not exp:
-        return ""       # nothing survives: outside the claim (excluded by the precondition)
+        return "~"       # nothing survives: outside the claim (excluded by the precondition)
     out = transform.ptb_delete_traces(nodes[0], **params)
     if out is not nodes[0]:
         return "ptb_delete_traces did not return the root"
